@@ -1,0 +1,105 @@
+//go:build verif
+
+// Contracts for package otel (the OpenTelemetry implementation of
+// eventbus.Observability), checked by /verif/engine (ebuverify).  Comments
+// only: with the build tag off this file does not exist.
+package otel
+
+// ---------------------------------------------------------------- assumed: the OpenTelemetry API
+// spanOf(ctx): the span a context carries.  Tracer.Start returns a context that
+// descends from the one it is given and carries the new span, whose parent is
+// the span of the given context; context.WithValue does not change the span.
+//@ ghost spanOf(Iface) Int
+//@ ghost spanParent(Int) Int
+//@ axiom [otel.withvalue] forall a iface, b iface :: {descends(a, b)} descends(a, b) && valueOnly(a, b) ==> spanOf(a) == spanOf(b)
+//@ ghost valueOnly(Iface, Iface) Bool
+//@ method trace.Tracer.Start(tracer, ctx, name, opts)
+//@   effect opaque
+//@   ensures result0 != nil && result1 != nil && descends(result0, ctx) && spanOf(result0) == payload(result1) && spanParent(payload(result1)) == spanOf(ctx)
+//@ func trace.SpanFromContext(ctx)
+//@   trusted
+//@   effect pure
+//@   ensures result != nil && payload(result) == spanOf(ctx)
+//@ method trace.Span.End(span, opts)
+//@   effect opaque
+//@ method trace.Span.SetAttributes(span, kv)
+//@   effect opaque
+//@ method trace.Span.SetStatus(span, code, description)
+//@   effect opaque
+//@ method trace.Span.RecordError(span, err, opts)
+//@   effect opaque
+//@ method metric.Int64Counter.Add(c, ctx, incr, opts)
+//@   effect opaque
+//@ method metric.Float64Histogram.Record(h, ctx, v, opts)
+//@   effect opaque
+//@ method SpanAttributer.SpanAttributes(sa)
+//@   effect reentrant
+//@ method error.Error(e)
+//@   effect pure
+//@ func trace.WithAttributes(attrs)
+//@   trusted
+//@   effect pure
+//@   ensures result != nil
+//@ func metric.WithAttributes(attrs)
+//@   trusted
+//@   effect pure
+//@   ensures result != nil
+//@ func attribute.String(k, v)
+//@   trusted
+//@   effect pure
+//@ func attribute.Bool(k, v)
+//@   trusted
+//@   effect pure
+//@ func attribute.Int64(k, v)
+//@   trusted
+//@   effect pure
+
+//@ immutable {C20,C03} Observability.tracer Observability.meter Observability.publishCounter Observability.handlerCounter Observability.handlerDuration Observability.handlerErrors Observability.persistCounter Observability.persistDuration Observability.persistErrors
+//@ initwriter New WithTracerProvider$1 WithMeterProvider$1
+
+//@ def ObsInv(o) o.tracer != nil && o.publishCounter != nil && o.handlerCounter != nil && o.handlerDuration != nil && o.handlerErrors != nil &&
+//@     o.persistCounter != nil && o.persistDuration != nil && o.persistErrors != nil
+
+//@ event startCall := call trace.Tracer.Start
+//@ event endCall := call trace.Span.End
+//@ event addCall := call metric.Int64Counter.Add
+//@ event recordCall := call metric.Float64Histogram.Record
+//@ event statusCall := call trace.Span.SetStatus
+
+// ---------------------------------------------------------------- publish
+//@ func (*Observability).OnPublishStart
+//@   props C20
+//@   requires o != nil && ctx != nil && ObsInv(o)
+//@   ensures [C20.otel.publish.start] cnt(startCall) == 1 && lastarg(startCall, 1, Iface) == ctx && result == lastresi(startCall, 0, Iface) && cnt(endCall) == 0
+//@   ensures [C20.otel.publish.count] cnt(addCall) == 1 && lastarg(addCall, 0, Iface) == o.publishCounter && lastarg(addCall, 2) == 1
+//@ func (*Observability).OnPublishComplete
+//@   props C20
+//@   requires o != nil && ctx != nil
+//@   ensures [C20.otel.publish.end] cnt(endCall) == 1 && payload(lastarg(endCall, 0, Iface)) == spanOf(ctx) && cnt(startCall) == 0
+
+// ---------------------------------------------------------------- handler
+//@ func (*Observability).OnHandlerStart
+//@   props C20
+//@   requires o != nil && ctx != nil && ObsInv(o)
+//@   ensures [C20.otel.handler.start] cnt(startCall) == 1 && descends(lastarg(startCall, 1, Iface), ctx) && result == lastresi(startCall, 0, Iface) && cnt(endCall) == 0
+//@   ensures [C20.otel.handler.count] cnt(addCall) == 1 && lastarg(addCall, 0, Iface) == o.handlerCounter && lastarg(addCall, 2) == 1
+//@ func (*Observability).OnHandlerComplete
+//@   props C20
+//@   requires o != nil && ctx != nil && ObsInv(o)
+//@   ensures [C20.otel.handler.end] cnt(endCall) == 1 && payload(lastarg(endCall, 0, Iface)) == spanOf(ctx) && cnt(startCall) == 0
+//@   ensures [C20.otel.handler.errors] cnt(addCall) == ite(err != nil, 1, 0) && (err != nil ==> lastarg(addCall, 0, Iface) == o.handlerErrors && lastarg(addCall, 2) == 1)
+//@   ensures [C20.otel.handler.duration] cnt(recordCall) == 1 && lastarg(recordCall, 0, Iface) == o.handlerDuration
+//@   ensures [C20.otel.handler.status] cnt(statusCall) == 1 && (lastarg(statusCall, 1) == 1 <==> err != nil)
+
+// ---------------------------------------------------------------- persist
+//@ func (*Observability).OnPersistStart
+//@   props C20
+//@   requires o != nil && ctx != nil && ObsInv(o)
+//@   ensures [C20.otel.persist.start] cnt(startCall) == 1 && descends(lastarg(startCall, 1, Iface), ctx) && result == lastresi(startCall, 0, Iface) && cnt(endCall) == 0
+//@   ensures [C20.otel.persist.count] cnt(addCall) == 1 && lastarg(addCall, 0, Iface) == o.persistCounter && lastarg(addCall, 2) == 1
+//@ func (*Observability).OnPersistComplete
+//@   props C20
+//@   requires o != nil && ctx != nil && ObsInv(o)
+//@   ensures [C20.otel.persist.end] cnt(endCall) == 1 && payload(lastarg(endCall, 0, Iface)) == spanOf(ctx) && cnt(startCall) == 0
+//@   ensures [C20.otel.persist.errors] cnt(addCall) == ite(err != nil, 1, 0) && (err != nil ==> lastarg(addCall, 0, Iface) == o.persistErrors && lastarg(addCall, 2) == 1)
+//@   ensures [C20.otel.persist.duration] cnt(recordCall) == 1 && lastarg(recordCall, 0, Iface) == o.persistDuration
